@@ -64,6 +64,20 @@ func writesOrig(fset *token.FileSet, body *ast.BlockStmt) bool {
 	return found
 }
 
+var wrongAssert, readerAsserts, badChild []string
+var nChildCtors int
+
+func countChildCtors(fset *token.FileSet, fd *ast.FuncDecl) int {
+	n := 0
+	ast.Inspect(fd.Body, func(x ast.Node) bool {
+		if call, ok := x.(*ast.CallExpr); ok && len(call.Args) >= 2 && childCtor.MatchString(strings.Join(strings.Fields(src(fset, call.Fun)), "")) {
+			n++
+		}
+		return true
+	})
+	return n
+}
+
 func firstAsserts(body *ast.BlockStmt) bool {
 	if len(body.List) == 0 {
 		return false
@@ -81,6 +95,95 @@ func firstAsserts(body *ast.BlockStmt) bool {
 }
 
 type entry struct{ pkg, typ, method, class string }
+
+// assertedOn: the receiver expression of statement i if it is `<x>.state.AssertMutable()` / `<x>.getState().AssertMutable()`
+func assertedOn(fset *token.FileSet, body *ast.BlockStmt, i int) string {
+	if len(body.List) <= i {
+		return ""
+	}
+	es, ok := body.List[i].(*ast.ExprStmt)
+	if !ok {
+		return ""
+	}
+	call, ok := es.X.(*ast.CallExpr)
+	if !ok {
+		return ""
+	}
+	sel, ok := call.Fun.(*ast.SelectorExpr)
+	if !ok || sel.Sel.Name != "AssertMutable" {
+		return ""
+	}
+	t := strings.Join(strings.Fields(src(fset, sel.X)), "")
+	for _, suf := range []string{".state", ".getState()"} {
+		if strings.HasSuffix(t, suf) {
+			return strings.TrimSuffix(t, suf)
+		}
+	}
+	return "?" + t
+}
+
+// rightAssert: does a guarded mutator assert the state(s) it must?  CopyTo: the destination's; MoveTo / MoveAndAppendTo:
+// the receiver's, then the destination's; everything else: the receiver's.
+func rightAssert(fset *token.FileSet, fd *ast.FuncDecl) bool {
+	recv := ""
+	if len(fd.Recv.List[0].Names) == 1 {
+		recv = fd.Recv.List[0].Names[0].Name
+	}
+	param := ""
+	if fd.Type.Params != nil && len(fd.Type.Params.List) == 1 && len(fd.Type.Params.List[0].Names) == 1 {
+		param = fd.Type.Params.List[0].Names[0].Name
+	}
+	switch fd.Name.Name {
+	case "CopyTo":
+		return param != "" && assertedOn(fset, fd.Body, 0) == param
+	case "MoveTo", "MoveAndAppendTo":
+		return param != "" && assertedOn(fset, fd.Body, 0) == recv && assertedOn(fset, fd.Body, 1) == param
+	}
+	return assertedOn(fset, fd.Body, 0) == recv
+}
+
+func containsAssert(body *ast.BlockStmt) bool {
+	found := false
+	ast.Inspect(body, func(n ast.Node) bool {
+		if sel, ok := n.(*ast.SelectorExpr); ok && sel.Sel.Name == "AssertMutable" {
+			found = true
+		}
+		return true
+	})
+	return found
+}
+
+var childCtor = regexp.MustCompile(`^(new[A-Z]\w*|internal\.New\w+)$`)
+
+// badChildStates: calls building a child wrapper (`newX(orig, state)` / `internal.NewX(orig, state)`) whose state argument
+// is not the receiver's own state (or, for the destination-side wrapper in CopyTo, the destination's)
+func badChildStates(fset *token.FileSet, fd *ast.FuncDecl) []string {
+	recv := ""
+	if len(fd.Recv.List[0].Names) == 1 {
+		recv = fd.Recv.List[0].Names[0].Name
+	}
+	var bad []string
+	ast.Inspect(fd.Body, func(n ast.Node) bool {
+		call, ok := n.(*ast.CallExpr)
+		if !ok || len(call.Args) < 2 || !childCtor.MatchString(strings.Join(strings.Fields(src(fset, call.Fun)), "")) {
+			return true
+		}
+		st := strings.Join(strings.Fields(src(fset, call.Args[len(call.Args)-1])), "")
+		first := src(fset, call.Args[0])
+		okState := func(owner string) bool {
+			return st == owner+".state" || st == owner+".getState()" ||
+				regexp.MustCompile(`^internal\.Get\w+State\(internal\.\w+\(`+regexp.QuoteMeta(owner)+`\)\)$`).MatchString(st)
+		}
+		switch {
+		case okState(recv):
+		case fd.Name.Name == "CopyTo" && okState("dest") && strings.Contains(first, "dest"):
+		default:
+			bad = append(bad, strings.Join(strings.Fields(src(fset, call)), " "))
+		}
+		return true
+	})
+	return bad
+}
 
 func main() {
 	if len(os.Args) < 2 {
@@ -156,6 +259,17 @@ func main() {
 					class = "delegating"
 				}
 				all = append(all, entry{p, id.Name, fd.Name.Name, class})
+				if class == "guarded" && !rightAssert(fset, fd) {
+					wrongAssert = append(wrongAssert, fmt.Sprintf("(%q, %q, %q)", p, id.Name, fd.Name.Name))
+				}
+				if class == "reader" && containsAssert(fd.Body) {
+					readerAsserts = append(readerAsserts, fmt.Sprintf("(%q, %q, %q)", p, id.Name, fd.Name.Name))
+				}
+				for _, b := range badChildStates(fset, fd) {
+					badChild = append(badChild, fmt.Sprintf("(%q, %q, %q)", p, id.Name+"."+fd.Name.Name, b))
+					_ = b
+				}
+				nChildCtors += countChildCtors(fset, fd)
 				n++
 			}
 		}
@@ -195,6 +309,10 @@ func main() {
 		}
 		fmt.Println("]")
 	}
+	fmt.Printf("\n/-- guarded mutators that do not assert the state they must (CopyTo: destination; MoveTo/MoveAndAppendTo: receiver then destination; else receiver) -/\ndef wrongAssert : List (String × String × String) := [%s]\n", strings.Join(wrongAssert, ", "))
+	fmt.Printf("\n/-- readers that assert mutability somewhere -/\ndef readerAsserts : List (String × String × String) := [%s]\n", strings.Join(readerAsserts, ", "))
+	fmt.Printf("\n/-- child wrappers built with a state that is not the parent's: (package, Type.Method, call) -/\ndef badChildState : List (String × String × String) := [%s]\n", strings.Join(badChild, ", "))
+	fmt.Printf("\n/-- child-wrapper constructions inspected -/\ndef nChildCtors : Nat := %d\n", nChildCtors)
 	list("unguarded", "unguarded")
 	list("delegating", "delegating")
 	fmt.Println("\nend OtelVerif.Gen.PdataCensus")
